@@ -186,10 +186,10 @@ CHECKS = {
              'correspondences, nothing outside the model). Theorems (Properties/C17.v): JSON - decoding the rendering of every well-formed AST yields the schema in normal form '
              '(parent lists sorted, an empty bare namespace dropped), the second rendering is identical, resolution is preserved up to the order of parent lists, the decoder is '
              'total; TEXT - parse_schema (print_schema s) = norm_text s for every schema the text syntax can express (wf_text), the second rendering is byte-identical, the '
-             'parser is total, and the round trip preserves the verdict and result of resolution unless a declared type is named like a builtin (C17_text_roundtrip_f26_refuted = '
-             'known finding F26; an empty applies-to list is not printable: F45). Direct oracle on text-, JSON- and AST-born schemas for the combination of the two formats.',
+             'parser is total, and the round trip preserves the verdict and result of resolution (also for declared types named like built-ins: the printer writes __cedar::Name then - '
+             'F26, found here and fixed; an empty applies-to list is not printable: known finding F45). Direct oracle on text-, JSON- and AST-born schemas for the combination of the two formats.',
         note=TB + 'Trusted in addition: the schema generators and the canonical comparison of resolved schemas. The text normal form turns every type name into a reference '
-             '(the Go parser does not classify names; the resolver does). F26 and F45 are known findings; F44 was found on AST-born schemas and fixed.',
+             '(the Go parser does not classify names; the resolver does). F45 is a known finding; F26 and F44 were found by this check and fixed.',
         technique='Coq proofs (JSON and text codec round trips, resolution preserved) + enc/dec and parse/print correspondences + Go-vs-Go round-trip oracle over generated schemas'),
     'C18': dict(
         level='proof', design='§6 C18',
